@@ -215,7 +215,10 @@ func TestC10(t *testing.T) {
 			g.Comps = []string{"p", "q", "r"}
 			live.S.Class("link-maze")
 		}
-		if len(steps) == 0 && rapid.IntRange(0, 4).Draw(t, "drained-handle") == 0 {
+		// (while F-11 is open only without compression: a decoder that ends its stream with a
+		// zero-length write - parallelgzip's WriteTo - keeps even a drained handle's restore
+		// goroutine, and with it the drive, waiting for the reader)
+		if len(steps) == 0 && rapid.IntRange(0, 4).Draw(t, "drained-handle") == 0 && (cfg.Compression == "" || !guard("F-11")) {
 			// a handle that has taken every byte of a content of whole records (without getting to
 			// see the end of the stream) stays open while the calls that follow need the drive
 			size := cfg.RecordSize * 512 * rapid.IntRange(1, 2).Draw(t, "records")
